@@ -19,6 +19,11 @@ Definition ccoo := (N * N * float)%type.
 Definition c3 (i j : N) (x : float) : ccoo := (i, j, x).
 Arguments c3 i%N j%N x%float.
 
+Definition fs (x : float) : option float := Some x.
+Arguments fs x%float.
+Definition zo (z : Z) : option Z := Some z.
+Arguments zo z%Z.
+
 Notation fentry := (nat * T F64)%type.
 Definition to_ents (l : list ent) : list fentry := map (fun p => (N.to_nat (fst p), (snd p : T F64))) l.
 Definition to_vec (v : cvec) : vec F64 := @Build_vec F64 (N.to_nat (cv_dim v)) (to_ents (cv_ents v)).
